@@ -6,6 +6,8 @@ import CCVerif.Lemmas.OssTop
 import CCVerif.Lemmas.OssExec
 import CCVerif.Lemmas.OssStep
 import CCVerif.Lemmas.OssStab
+import CCVerif.Lemmas.OssFuel
+import CCVerif.Lemmas.OssFuelStep
 /-!
 # C19 — the operation schema stays sound and never shows outdated synthesis as current
 
@@ -42,6 +44,19 @@ variant is named.
   every state reached by an admissible history of the repaired code. `exec_result_partial`,
   `dataFor_reads`: the earlier partial forms (any variant, any state).
 * `execute_null_translations_counterexample`: the fourth pinned defect (a fault).
+* fuel sufficiency (the model's loops with a hidden variant take fuel; "out of fuel" is proved
+  unreachable): `closestFree_fuel_sufficient` (every grid, every start), `insert_none_iff`;
+  `reactions_depth_any_state` / `reactions_depth_bound` (nesting depth of the reaction chain
+  ≤ 5 · stale pictograms + 5, any state; the model's constant `8 · (documents + 2)` suffices when no two
+  pictograms stand for one document), `reactions_fuel_sufficient` (every entry point of `step`, from
+  an invariant state), `execute_fuel_sufficient`, `run_fuel_sufficient` (`Execute` through
+  `PrepareParents`, `ExecuteAll`); `reactions_fuel_independent`, `execute_fuel_independent`: more fuel
+  than the model's constants never changes a result (the `0` cases are not reached);
+  **`fault_never_fuel`**: after every admissible history of the repaired code the model fault is never
+  "fuel"; hence `no_stale_done_repaired_access` and `exec_result_reachable_access`, whose hypothesis
+  is only "no unchecked access of the C++ was reached" (`Dyn.accessFault`);
+  `fault_never_fuel_needs_admissible`: with reused document names the constant IS too small.
+  Lemmas: `Lemmas/OssFuel.lean`, `Lemmas/OssFuelStep.lean`.
 -/
 namespace CCVerif.Oss
 
@@ -1422,7 +1437,8 @@ private theorem tinv_history (o : Oracle) (hsyn : o.synthNonzero) :
 /-- **no stale `done`, repaired code.** After every admissible history (`admissibleRun`: documents are
 opened only when closed, new documents get fresh names, reloaded documents keep the order of each
 child's connections) under an oracle whose synthesis never has the "no hash" content `0`, in a
-state without a model fault (an unchecked access of the C++ or exhausted fuel), every operation
+state without a model fault (an unchecked access of the C++ or exhausted fuel — the latter is
+unreachable: `fault_never_fuel`, `no_stale_done_repaired_access`), every operation
 with a stored result that reports `done` was built from the announced content of both parents. -/
 theorem no_stale_done_repaired (o : Oracle) (hsyn : o.synthNonzero) (ops : List Op) (st : St)
     (hrun : runHist Variant.repaired o ops = some st) (hadm : admissibleRun Variant.repaired o ops.reverse = true)
@@ -1513,6 +1529,399 @@ theorem exec_result_reachable : exec_result_reachable_statement := by
   obtain ⟨i, j⟩ := t hf0
   exact exec_result_of_inv o hsyn st st' p a hs i j hstep hf
 
+
+
+/-! ## fuel sufficiency: the model's out-of-fuel outcomes are unreachable -/
+
+/-- **(3) `ClosestFreePos` never runs out of fuel**: for every grid and every start cell the scan
+finds a free cell within the `g.length + 2` iterations the model allows (no invariant needed) -/
+theorem closestFree_fuel_sufficient (g : Grid) (start : Pos) : g.closestFreePos start ≠ none := by
+  have := closestFreePos_isSome g start
+  intro h; rw [h] at this; cases this
+
+/-- hence `step` answers `none` for an insertion / a loaded pictogram only for an identifier that is
+not fresh (`InsertOperation`: under the structural invariant, which gives both operands a cell) -/
+theorem insert_none_iff (v : Variant) (o : Oracle) (st : St) :
+    (∀ fresh, step v o st (.insertBase fresh) = none ↔ fresh ∈ st.s.ids) ∧
+    (∀ a b fresh, StructInv st.s →
+      (step v o st (.insertOperation a b fresh) = none ↔ a ≠ b ∧ a ∈ st.s.storage ∧ b ∈ st.s.storage ∧ fresh ∈ st.s.ids)) ∧
+    (∀ uid pos isOp fresh, st.s.loadPict uid pos isOp fresh = none ↔ uid ∈ st.s.ids ∧ fresh ∈ st.s.ids) := by
+  refine ⟨?_, ?_, ?_⟩
+  · intro fresh
+    simp only [step, Option.map_eq_none_iff, Struct.insertBase]
+    cases hc : st.s.grid.closestFreePos with
+    | none => exact absurd hc (closestFree_fuel_sufficient _ _)
+    | some pos =>
+      by_cases hm : fresh ∈ st.s.ids
+      · simp [hm]
+      · simp [hm]
+  · intro a b fresh hs
+    simp only [step, Option.map_eq_none_iff, Struct.insertOperation]
+    by_cases hab : a = b
+    · simp [hab]
+    · by_cases hsa : a ∈ st.s.storage
+      · by_cases hsb : b ∈ st.s.storage
+        · by_cases hm : fresh ∈ st.s.ids
+          · simp [hab, hsa, hsb, hm, Struct.contains]
+          · have hpa : ∃ pa, st.s.grid.posOf a = some pa := by
+              have := (hs.keys.gridVals a).2 hsa
+              obtain ⟨x, hx, hxa⟩ := List.mem_map.1 this
+              cases hf : st.s.grid.find? (·.2 == a) with
+              | none => exact absurd (List.find?_eq_none.1 hf x hx) (by simp [hxa])
+              | some y => exact ⟨y.1, by simp [Grid.posOf, hf]⟩
+            have hpb : ∃ pb, st.s.grid.posOf b = some pb := by
+              have := (hs.keys.gridVals b).2 hsb
+              obtain ⟨x, hx, hxa⟩ := List.mem_map.1 this
+              cases hf : st.s.grid.find? (·.2 == b) with
+              | none => exact absurd (List.find?_eq_none.1 hf x hx) (by simp [hxa])
+              | some y => exact ⟨y.1, by simp [Grid.posOf, hf]⟩
+            obtain ⟨pa, hpa⟩ := hpa
+            obtain ⟨pb, hpb⟩ := hpb
+            simp only [hab, hsa, hsb, hm, Struct.contains, List.contains_iff_mem, if_false, Grid.childPosFor, hpa, hpb,
+              ne_eq, not_false_eq_true, and_false, iff_false]
+            cases hc : st.s.grid.closestFreePos ⟨max pa.row pb.row + 1,
+                if 2 * pa.col + pa.row + 2 * pb.col + pb.row - 2 * (max pa.row pb.row + 1) ≤ 0 then 0
+                else (2 * pa.col + pa.row + 2 * pb.col + pb.row - 2 * (max pa.row pb.row + 1) + 2) / 4⟩ with
+            | none => exact absurd hc (closestFree_fuel_sufficient _ _)
+            | some pos => simp [hab, hsa, hsb]
+        · simp [hab, hsa, hsb, Struct.contains]
+      · simp [hab, hsa, Struct.contains]
+  · intro uid pos isOp fresh
+    unfold Struct.loadPict
+    have hp : ∃ q, (if (st.s.grid.cell pos).isSome then st.s.grid.closestFreePos pos else some pos) = some q := by
+      split
+      · cases hc : st.s.grid.closestFreePos pos with
+        | none => exact absurd hc (closestFree_fuel_sufficient _ _)
+        | some q => exact ⟨q, rfl⟩
+      · exact ⟨pos, rfl⟩
+    obtain ⟨q, hq⟩ := hp
+    simp only [hq]
+    by_cases h1 : uid ∈ st.s.ids <;> by_cases h2 : fresh ∈ st.s.ids <;> simp [h1, h2]
+
+/-- **the nesting depth of the reaction chain** (any state, any variant, any oracle): when no two
+stored pictograms stand for one document, a call of the chain with the model's fuel
+`fuelOf d = 8 * (#documents + 2)` does not produce the fault "fuel" — the depth is at most
+`5 * (stale pictograms) + 5`, and there are at most as many stale pictograms as documents -/
+theorem reactions_depth_bound (s : Struct) (o : Oracle) (d : Dyn) (hn : s.storage.Nodup) (hu : UniqEd s d)
+    (hf : d.fault ≠ some "fuel") :
+    (∀ n, (announce s o (fuelOf d) d n).fault ≠ some "fuel") ∧
+    (∀ p, p ∈ s.storage → (syncPict s o (fuelOf d) d p).fault ≠ some "fuel") ∧
+    (∀ p, (coreChange s o (fuelOf d) d p).fault ≠ some "fuel") ∧
+    (∀ p, (updateSync s o (fuelOf d) d p).fault ≠ some "fuel") ∧
+    (∀ p, (dataFor s o (fuelOf d) d p).1.fault ≠ some "fuel") ∧
+    (∀ p, (checkOp s o (fuelOf d) d p).fault ≠ some "fuel") := by
+  have hb : 5 * depthOf s d + 5 ≤ fuelOf d :=
+    fuelOf_enough (Nat.le_trans (depthOf_le_env hn hu) (Nat.le_add_right _ _))
+  obtain ⟨a, b, c, e, f, g⟩ := reactions_fuel s o (fuelOf d)
+  exact ⟨fun n => a d n hf (by omega), fun p hp => b d p hp hf (by omega), fun p => c d p hf (by omega),
+    fun p => e d p hf (by omega), fun p => f d p hf (by omega), fun p => g d p hf (by omega)⟩
+
+/-- the depth bound in terms of pictograms (ANY state, no invariant, any variant, any oracle): fuel
+`5 * storage.length + 5` is enough for every function of the chain. The model's constant
+`fuelOf d` counts documents instead; it is enough when no two pictograms stand for one document
+(`reactions_depth_bound`), and too small otherwise (`fault_never_fuel_needs_admissible`) -/
+theorem reactions_depth_any_state (s : Struct) (o : Oracle) (d : Dyn) (f : Nat) (hfuel : 5 * s.storage.length + 5 ≤ f)
+    (hf : d.fault ≠ some "fuel") :
+    (∀ n, (announce s o f d n).fault ≠ some "fuel") ∧
+    (∀ p, p ∈ s.storage → (syncPict s o f d p).fault ≠ some "fuel") ∧
+    (∀ p, (coreChange s o f d p).fault ≠ some "fuel") ∧
+    (∀ p, (updateSync s o f d p).fault ≠ some "fuel") ∧
+    (∀ p, (dataFor s o f d p).1.fault ≠ some "fuel") ∧
+    (∀ p, (checkOp s o f d p).fault ≠ some "fuel") := by
+  have hb : depthOf s d ≤ s.storage.length :=
+    Nat.le_trans (depthOf_le_staleCount s d) (List.countP_le_length)
+  obtain ⟨a, b, c, e, f', g⟩ := reactions_fuel s o f
+  exact ⟨fun n => a d n hf (by omega), fun p hp => b d p hp hf (by omega), fun p => c d p hf (by omega),
+    fun p => e d p hf (by omega), fun p => f' d p hf (by omega), fun p => g d p hf (by omega)⟩
+
+/-- **(1) the reaction chain never runs out of fuel** from the entry points `step` uses, in a
+fault-free state that satisfies the structural invariant and the invariant between calls (`DInv`;
+what is used of it: `HInv.uniq` — no two pictograms stand for one document — for the count, and
+the whole of it to know the state again after each sub-call); `evOpen` for a closed document (the
+admissibility condition of the freshness theorem) -/
+theorem reactions_fuel_sufficient (s : Struct) (o : Oracle) (d : Dyn) (hs : StructInv s) (i : DInv s d) (hf : d.fault = none) :
+    (∀ n, (evAnnounce s o d n).fault ≠ some "fuel") ∧
+    (∀ n, (mgrClose s o d n).fault ≠ some "fuel") ∧
+    (∀ n, (∀ x, d.source n = some x → x.opened = false) → (evOpen s o d n).fault ≠ some "fuel") ∧
+    (∀ p n, (connectPict2Src s o d p n).1.fault ≠ some "fuel") ∧
+    (∀ p, (discard s o d p).fault ≠ some "fuel") ∧
+    (∀ p t opts same, (initFor s Variant.repaired o d p t opts same).1.fault ≠ some "fuel") ∧
+    (∀ p ch, (updateChildren s Variant.repaired o d p ch).fault ≠ some "fuel") ∧
+    (∀ l : List Pid, (l.foldl (fun d p => updateSync s o (fuelOf d) d p) d).fault ≠ some "fuel") ∧
+    (∀ p, (checkOp s o (fuelOf d) d p).fault ≠ some "fuel") ∧ (∀ p, (coreChange s o (fuelOf d) d p).fault ≠ some "fuel") ∧
+    (∀ p, (updateSync s o (fuelOf d) d p).fault ≠ some "fuel") ∧ (∀ p, (dataFor s o (fuelOf d) d p).1.fault ≠ some "fuel") := by
+  have k := structOk_of_inv hs
+  have hn := hs.keys.storageNodup
+  exact ⟨fun n => (announce_ds k.g hn o d n).nf i hf, fun n => (mgrClose_ds k.g hn o d n).nf i hf,
+    fun n ha => (evOpen_ds k.g hn o d n ha).nf i hf, fun p n => (connectPict2Src_ds k.g hn o d p n).nf i hf,
+    fun p => (discard_ds k.g hn o d p).nf i hf, fun p t opts same => (initFor_ds k.g hn o d p t opts same).nf i hf,
+    fun p ch => (updateChildren_ds k.g hn o d p ch).nf i hf, fun l => (saveAll_ds k.g hn o l d).nf i hf,
+    fun p => (checkOp_ds k.g hn o d p).nf i hf, fun p => (coreChange_ds k.g hn o d p).nf i hf,
+    fun p => (updateSync_ds k.g hn o d p).nf i hf, fun p => (dataFor_ds k.g hn o d p).nf i hf⟩
+
+/-- **(2) `Execute` never runs out of fuel** — neither its own (`storage.length + 2` levels of
+`PrepareParents`: the pictograms on the recursion stack are pairwise different stored operations,
+because the parent relation is acyclic) nor that of the chain calls inside (`CheckOperation`,
+`RunOperation`, `SaveOperationResult`) — in a fault-free state satisfying the invariants; same for
+`ExecuteAll` -/
+theorem execute_fuel_sufficient (s : Struct) (o : Oracle) (d : Dyn) (hs : StructInv s) (i : DInv s d) (hf : d.fault = none) :
+    (∀ p a, (execute s Variant.repaired o (s.storage.length + 2) d p a).1.fault ≠ some "fuel") ∧
+    (executeAll s Variant.repaired o d).fault ≠ some "fuel" := by
+  have k := structOk_of_inv hs
+  have hn := hs.keys.storageNodup
+  obtain ⟨rank, hr⟩ := hs.parents.acyclic
+  exact ⟨fun p a => (execute_top_ds k hn o rank hr d p a).nf i hf, (executeAll_ds k hn o rank hr d).nf i hf⟩
+
+/-- the pieces of `Execute` after `PrepareParents`, same hypotheses -/
+theorem run_fuel_sufficient (s : Struct) (o : Oracle) (d : Dyn) (hs : StructInv s) (i : DInv s d) (hf : d.fault = none) :
+    (∀ p ∈ s.storage, ∀ c built, (saveResult s Variant.repaired o d p c built).1.fault ≠ some "fuel") ∧
+    (∀ p ∈ s.opKeys, ∀ a, (runOperation s Variant.repaired o d p a).1.fault ≠ some "fuel") ∧
+    (∀ p ∈ s.opKeys, ∀ a b, (finishExecute s Variant.repaired o p a (d, b)).1.fault ≠ some "fuel") := by
+  have k := structOk_of_inv hs
+  have hn := hs.keys.storageNodup
+  refine ⟨fun p hp c built => (saveResult_ds k.g hn o d p c built hp).nf i hf, ?_, ?_⟩
+  · intro p hp a
+    obtain ⟨p1, p2, hpar, _, _⟩ := k.opPar p hp
+    exact (runOperation_ds k.g hn o d p p1 p2 a (k.opSub p hp) hpar).nf i hf
+  · intro p hp a b
+    obtain ⟨p1, p2, hpar, _, _⟩ := k.opPar p hp
+    exact (finishExecute_ds k hn o p p1 p2 a (d, b) hp hpar).nf i hf
+
+/-- **the chain does not depend on the fuel constant** (any variant, any oracle, any dynamic state —
+faulty or not — in which no two stored pictograms stand for one document): more fuel than the model's
+`fuelOf d` gives the same result, i.e. the `0` case of the model's functions is never reached -/
+theorem reactions_fuel_independent (s : Struct) (o : Oracle) (d : Dyn) (hn : s.storage.Nodup) (hu : UniqEd s d)
+    (f : Nat) (hfuel : fuelOf d ≤ f) :
+    (∀ n, announce s o f d n = announce s o (fuelOf d) d n) ∧
+    (∀ p, p ∈ s.storage → syncPict s o f d p = syncPict s o (fuelOf d) d p) ∧
+    (∀ p, coreChange s o f d p = coreChange s o (fuelOf d) d p) ∧
+    (∀ p, updateSync s o f d p = updateSync s o (fuelOf d) d p) ∧
+    (∀ p, dataFor s o f d p = dataFor s o (fuelOf d) d p) ∧
+    (∀ p, checkOp s o f d p = checkOp s o (fuelOf d) d p) := by
+  have hb : 5 * depthOf s d + 5 ≤ fuelOf d :=
+    fuelOf_enough (Nat.le_trans (depthOf_le_env hn hu) (Nat.le_add_right _ _))
+  obtain ⟨a, b, c, e, g, h⟩ := reactions_fuel_indep s o f (fuelOf d)
+  exact ⟨fun n => a d n (by omega) (by omega), fun p hp => b d p hp (by omega) (by omega), fun p => c d p (by omega) (by omega),
+    fun p => e d p (by omega) (by omega), fun p => g d p (by omega) (by omega), fun p => h d p (by omega) (by omega)⟩
+
+/-- **`Execute` does not depend on its fuel** (any variant, any oracle, any dynamic state, under the
+structural invariant alone): every fuel above the number of stored pictograms gives the result of the
+model's `storage.length + 2`, i.e. the `0` case of `execute` is never reached -/
+theorem execute_fuel_independent (s : Struct) (v : Variant) (o : Oracle) (hs : StructInv s) (d : Dyn) (p : Pid) (a : Bool)
+    (f : Nat) (hfuel : s.storage.length < f) :
+    execute s v o f d p a = execute s v o (s.storage.length + 2) d p a := by
+  obtain ⟨rank, hr⟩ := hs.parents.acyclic
+  exact execute_fuel_indep v o hs.keys.opSub rank hr f _ d p a [] List.nodup_nil (fun _ h => by cases h) (by simpa using hfuel) (by simp)
+
+/-- a fault is never overwritten by `Execute` (the first fault is kept): from a state whose fault is
+`w` the call ends with fault `w` -/
+theorem execute_keeps_fault (s : Struct) (o : Oracle) (d : Dyn) (hs : StructInv s) (p : Pid) (a : Bool) (w : String)
+    (hw : d.fault = some w) : (execute s Variant.repaired o (s.storage.length + 2) d p a).1.fault = some w := by
+  have k := structOk_of_inv hs
+  obtain ⟨rank, hr⟩ := hs.parents.acyclic
+  exact (execute_top_ds k hs.keys.storageNodup o rank hr d p a).sticky w hw
+
+private theorem ds_ite {s : Struct} {d : Dyn} {c : Prop} [Decidable c] {a b : Dyn} (ha : DS s d a) (hb : DS s d b) :
+    DS s d (if c then a else b) := by
+  split
+  · exact ha
+  · exact hb
+
+private theorem evEdit_fault (d : Dyn) (n : SrcName) (c : Content) : (evEdit d n c).fault = d.fault := by
+  unfold evEdit
+  split <;> rfl
+
+private theorem evDestroy_fault (s : Struct) (d : Dyn) (n : SrcName) : (evDestroy s d n).fault = d.fault := by
+  unfold evDestroy
+  cases d.source n with
+  | none => rfl
+  | some x =>
+    dsimp only
+    split
+    · exact evClose_fault s d n
+    · rfl
+
+/-- one step of the repaired code: a fault is kept; from a fault-free state satisfying the invariants
+no "fuel" fault arises -/
+private theorem step_fuel (o : Oracle) (st st' : St) (op : Op) (b : Bool)
+    (hs : StructInv st.s) (hadm : admissibleStep st op = true)
+    (hstep : step Variant.repaired o st op = some (st', b)) :
+    Sticky st.d st'.d ∧ (DInv st.s st.d → st.d.fault = none → NF st'.d) := by
+  have k := structOk_of_inv hs
+  have hn := hs.keys.storageNodup
+  obtain ⟨rank, hr⟩ := hs.parents.acyclic
+  have of_ds : ∀ {d' : Dyn}, DS st.s st.d d' → Sticky st.d d' ∧ (DInv st.s st.d → st.d.fault = none → NF d') :=
+    fun h => ⟨h.sticky, h.nf⟩
+  have of_eq : ∀ {d' : Dyn}, d'.fault = st.d.fault → Sticky st.d d' ∧ (DInv st.s st.d → st.d.fault = none → NF d') :=
+    fun e => ⟨Sticky.of_eq e, fun _ hf => NF.of_none (by rw [e]; exact hf)⟩
+  cases op with
+  | insertBase fresh =>
+    simp only [step, Option.map_eq_some_iff] at hstep
+    obtain ⟨s', _, he⟩ := hstep
+    injection he with he; subst he
+    exact of_eq rfl
+  | insertOperation a b' fresh =>
+    simp only [step, Option.map_eq_some_iff] at hstep
+    obtain ⟨r, _, he⟩ := hstep
+    cases r with
+    | none => simp only at he; injection he with he; subst he; exact of_eq rfl
+    | some s' => simp only at he; injection he with he; subst he; exact of_eq rfl
+  | erase p =>
+    simp only [step] at hstep
+    split at hstep
+    · injection hstep with hstep; injection hstep with hstep; subst hstep; exact of_eq rfl
+    · rename_i he
+      injection hstep with hstep; injection hstep with hstep; subst hstep
+      have he' : st.s.erasable p = true := by simpa using he
+      simp only [Struct.erasable, Struct.contains, Bool.and_eq_true, List.isEmpty_iff] at he'
+      have g1 := graphOk_eraseFacets hs he'.2
+      have hd := discard_ds (s := st.s.eraseFacets p) g1 hn o st.d p
+      exact ⟨hd.sticky.trans (Sticky.of_eq rfl), fun i hf => (hd.nf (i.subset (fun _ h => h)) hf).of_eq rfl⟩
+  | newSource n c =>
+    simp only [step] at hstep
+    split at hstep
+    · cases hstep
+    · injection hstep with hstep; injection hstep with hstep; subst hstep
+      exact of_eq rfl
+  | connect p n =>
+    simp only [step] at hstep
+    injection hstep with hstep; injection hstep with hstep; subst hstep
+    have hd := connectPict2Src_ds k.g hn o st.d p n
+    exact of_ds (ds_ite (hd.trans (DS.setOp _ _ _ _)) hd)
+  | edit n c =>
+    simp only [step] at hstep; injection hstep with hstep; injection hstep with hstep; subst hstep
+    exact of_eq (evEdit_fault st.d n c)
+  | announce n =>
+    simp only [step] at hstep; injection hstep with hstep; injection hstep with hstep; subst hstep
+    exact of_ds (announce_ds k.g hn o st.d n)
+  | close n =>
+    simp only [step] at hstep; injection hstep with hstep; injection hstep with hstep; subst hstep
+    exact of_eq (evClose_fault st.s st.d n)
+  | openSrc n =>
+    simp only [step] at hstep; injection hstep with hstep; injection hstep with hstep; subst hstep
+    refine of_ds (evOpen_ds k.g hn o st.d n ?_)
+    intro x hx
+    simp only [admissibleStep, hx] at hadm
+    simpa using hadm
+  | destroy n =>
+    simp only [step] at hstep; injection hstep with hstep; injection hstep with hstep; subst hstep
+    exact of_eq (evDestroy_fault st.s st.d n)
+  | initFor p ty opts same =>
+    simp only [step] at hstep; injection hstep with hstep; injection hstep with hstep; subst hstep
+    exact of_ds (initFor_ds k.g hn o st.d p ty opts same)
+  | execute p a =>
+    simp only [step] at hstep; injection hstep with hstep; injection hstep with hstep; subst hstep
+    exact of_ds (execute_top_ds k hn o rank hr st.d p a)
+  | executeAll =>
+    simp only [step] at hstep; injection hstep with hstep; injection hstep with hstep; subst hstep
+    exact of_ds (executeAll_ds k hn o rank hr st.d)
+  | reload items edges =>
+    simp only [step] at hstep
+    split at hstep
+    · cases hstep
+    · split at hstep
+      · cases hstep
+      · simp only [Option.map_eq_some_iff] at hstep
+        obtain ⟨st2, hl, he⟩ := hstep
+        injection he with he; subst he
+        simp only [loadDoc, Option.map_eq_some_iff] at hl
+        obtain ⟨sA, _, he⟩ := hl
+        subst he
+        have hS := saveAll_ds k.g hn o st.s.storage st.d
+        generalize List.foldl (fun d p => updateSync st.s o (fuelOf d) d p) st.d st.s.storage = d1 at hS
+        obtain ⟨_, _, cF, _, _⟩ := closeAll_spec st.s o d1
+        obtain ⟨_, _, _, lf, _⟩ := loadDyn_frame (items.filterMap (St.docItem { s := st.s, d := d1 }))
+          ({ closeAll st.s o d1 with handles := [], ops := [], dnd := 0 } : Dyn)
+        have e : (loadDyn ({ closeAll st.s o d1 with handles := [], ops := [], dnd := 0 } : Dyn)
+            (items.filterMap (St.docItem { s := st.s, d := d1 }))).fault = d1.fault := lf.trans cF
+        exact ⟨hS.sticky.trans (Sticky.of_eq e), fun i hf => (hS.nf i hf).of_eq e⟩
+
+/-- an unchecked access of the C++ was reached (`operations.at`, a null `src` in `SyncData`,
+`ParentIndex(...).value()`, `*translations`, `*params`, the `assert`s, `Execute(call).value()`,
+`WriteData` without a document): the model fault is set and it is not the out-of-fuel marker -/
+def Dyn.accessFault (d : Dyn) : Prop := ∃ w, d.fault = some w ∧ w ≠ "fuel"
+
+/-- **the out-of-fuel outcome is unreachable**: after every admissible history of the repaired code
+(any oracle whose synthesis is never the "no hash" content) the model fault is not "fuel": in a
+fault-free state the next step does not run out of fuel (`closestFree_fuel_sufficient` for the
+grid — there the outcome would be `none`, not a fault —, `reactions_fuel_sufficient`,
+`execute_fuel_sufficient`), and a state with an access fault keeps that fault -/
+theorem fault_never_fuel (o : Oracle) (hsyn : o.synthNonzero) (ops : List Op) (st : St)
+    (hrun : runHist Variant.repaired o ops = some st) (hadm : admissibleRun Variant.repaired o ops.reverse = true) :
+    st.d.fault ≠ some "fuel" := by
+  have key : ∀ (l : List Op) (st : St), run Variant.repaired o l = some st → admissibleRun Variant.repaired o l = true → NF st.d := by
+    intro l
+    induction l with
+    | nil =>
+      intro st h _
+      simp only [run] at h; injection h with h; subst h
+      exact NF.of_none rfl
+    | cons op l ih =>
+      intro st h ha
+      simp only [run, Option.bind_eq_some_iff, Option.map_eq_some_iff] at h
+      obtain ⟨st0, h0, ⟨r, hr, he⟩⟩ := h
+      subst he
+      simp only [admissibleRun, Bool.and_eq_true, h0] at ha
+      obtain ⟨hs0, t0⟩ := tinv_history o hsyn l st0 h0 ha.1
+      obtain ⟨stk, nf⟩ := step_fuel o st0 r.1 op r.2 hs0 ha.2 hr
+      exact nf_step (ih st0 h0 ha.1) stk (fun hf0 => nf (t0 hf0).1 hf0)
+  exact key ops.reverse st hrun hadm
+
+/-- in a reachable state "no model fault" and "no unchecked access reached" are the same -/
+theorem fault_none_iff_no_access (o : Oracle) (hsyn : o.synthNonzero) (ops : List Op) (st : St)
+    (hrun : runHist Variant.repaired o ops = some st) (hadm : admissibleRun Variant.repaired o ops.reverse = true) :
+    st.d.fault = none ↔ ¬ st.d.accessFault := by
+  have hnf := fault_never_fuel o hsyn ops st hrun hadm
+  constructor
+  · intro h ⟨w, hw, _⟩
+    rw [h] at hw; cases hw
+  · intro h
+    cases hf : st.d.fault with
+    | none => rfl
+    | some w =>
+      exfalso
+      apply h
+      refine ⟨w, hf, ?_⟩
+      rintro rfl
+      exact hnf hf
+
+/-- **no stale `done`, repaired code, without the fuel caveat**: after every admissible history,
+in every state in which no unchecked access of the C++ was reached (`Dyn.accessFault`), every
+operation with a stored result that reports `done` was built from the announced content of both
+parents. (`no_stale_done_repaired` assumed `fault = none`, which also excluded exhausted fuel.) -/
+theorem no_stale_done_repaired_access (o : Oracle) (hsyn : o.synthNonzero) (ops : List Op) (st : St)
+    (hrun : runHist Variant.repaired o ops = some st) (hadm : admissibleRun Variant.repaired o ops.reverse = true)
+    (hacc : ¬ st.d.accessFault) : st.fresh = true :=
+  no_stale_done_repaired o hsyn ops st hrun hadm ((fault_none_iff_no_access o hsyn ops st hrun hadm).2 hacc)
+
+/-- **result of an execution, reachable states, without the fuel caveat** -/
+def exec_result_reachable_access_statement : Prop :=
+  ∀ (o : Oracle) (ops : List Op) (st st' : St) (p : Pid) (a : Bool), o.synthNonzero →
+    runHist Variant.repaired o ops = some st → admissibleRun Variant.repaired o ops.reverse = true →
+    step Variant.repaired o st (.execute p a) = some (st', true) → ¬ st'.d.accessFault →
+    ∃ p1 p2 c1 c2 old n,
+      st.s.graph.parentsOf p = [p1, p2] ∧
+      ((st'.d.handle p1).src.bind st'.d.source).map (·.content) = some c1 ∧
+      ((st'.d.handle p2).src.bind st'.d.source).map (·.content) = some c2 ∧
+      (st'.d.handle p).src = some n ∧ (st'.d.source n).map (·.content) = some (o.synth p c1 c2 old) ∧
+      statusOf st'.s st'.d p = .done
+
+theorem exec_result_reachable_access : exec_result_reachable_access_statement := by
+  intro o ops st st' p a hsyn hrun hadm hstep hacc
+  have hrun' : runHist Variant.repaired o (ops ++ [Op.execute p a]) = some st' := by
+    unfold runHist at hrun ⊢
+    rw [List.reverse_append]
+    simp only [List.reverse_cons, List.reverse_nil, List.nil_append, List.singleton_append, run, hrun, Option.bind_some,
+      hstep, Option.map_some]
+  have hadm' : admissibleRun Variant.repaired o (ops ++ [Op.execute p a]).reverse = true := by
+    rw [List.reverse_append]
+    simp only [List.reverse_cons, List.reverse_nil, List.nil_append, List.singleton_append, admissibleRun, hadm,
+      Bool.true_and]
+    unfold runHist at hrun
+    rw [hrun]
+    rfl
+  exact exec_result_reachable o ops st st' p a hsyn hrun hadm hstep
+    ((fault_none_iff_no_access o hsyn _ st' hrun' hadm').2 hacc)
 
 /-! ## what the hypotheses of the freshness theorem exclude; the unrestricted statements -/
 
@@ -1605,6 +2014,26 @@ theorem exec_result_statement_false : ¬ exec_result_statement := by
   have h4' : (1411 : Nat) = 1000 + 100 * 4 + 10 * 1411 + (c2 : Nat) := h4
   omega
 
+/-- six base pictograms attached one after the other to documents that all get the name `1` (each
+destroyed before the next is created — the only inadmissible steps: `newSource` with a name used
+before), operations `100+i = (i+1) + (i+2)` defined while no document `1` exists, then a seventh
+document `1` and `Execute(100)` -/
+def histShared : List Op :=
+  (List.range 6).flatMap (fun i => [Op.insertBase (i+1), Op.newSource 1 (10 + i), Op.connect (i+1) 1, Op.destroy 1]) ++
+  (List.range 5).flatMap (fun i => [Op.insertOperation (i+1) (i+2) (100+i), Op.initFor (100+i) .merge .none false]) ++
+  [Op.newSource 1 99, Op.execute 100 false]
+
+/-- **the admissibility hypothesis of `fault_never_fuel` is needed** (a limitation of the model's
+fuel constant, not of the code, whose recursion is unbounded): when document names are reused, six
+detached pictograms stand for the one document `1`; `Execute(100)` opens and synchronises them
+nested in each other (`DataFor → SyncPict → OnCoreChange → CheckOperation → DataFor → …`, four
+frames per pictogram), and the model's `fuelOf = 8 * (1 + 2) = 24` frames run out -/
+theorem fault_never_fuel_needs_admissible :
+    exampleOracle.synthNonzero ∧
+    (runHist Variant.repaired exampleOracle histShared).map (fun st => (st.d.fault, st.s.storage.length)) = some (some "fuel", 11) ∧
+    admissibleRun Variant.repaired exampleOracle histShared.reverse = false :=
+  ⟨exampleOracle_synthNonzero, by decide +kernel, by decide +kernel⟩
+
 /-! ## non-vacuity -/
 
 /-- an admissible history for `no_stale_done_repaired`: a changed operand announced and re-executed,
@@ -1655,5 +2084,64 @@ example : (step Variant.pinned exampleOracle ((runHist Variant.pinned exampleOra
     (step Variant.pinned exampleOracle ((runHist Variant.pinned exampleOracle chain).getD {}) (.erase 4)).map (·.2) = some false ∧
     (step Variant.pinned exampleOracle ((runHist Variant.pinned exampleOracle chain).getD {}) (.erase 5)).map (·.2) = some true := by
   decide +kernel
+
+/-- a zig-zag: bases 1..4 with their documents, operations `11 = 1+2`, `12 = 2+3`, `13 = 3+4`, every
+document with a pending change -/
+def histZig : List Op :=
+  [.insertBase 1, .newSource 1 1, .connect 1 1, .insertBase 2, .newSource 2 1, .connect 2 2,
+   .insertBase 3, .newSource 3 1, .connect 3 3, .insertBase 4, .newSource 4 1, .connect 4 4,
+   .insertOperation 1 2 11, .initFor 11 .merge .none false,
+   .insertOperation 2 3 12, .initFor 12 .merge .none false,
+   .insertOperation 3 4 13, .initFor 13 .merge .none false,
+   .edit 1 2, .edit 2 2, .edit 3 2, .edit 4 2]
+
+/-- the hypotheses of `reactions_fuel_sufficient` / `execute_fuel_sufficient` / `reactions_depth_bound`
+hold in the state after `histZig`, where they say something: four pictograms are stale, announcing
+document 1 nests the announcements of 2, 3, 4 (20 frames are not enough), the model's fuel is -/
+example : ∃ st, runHist Variant.repaired exampleOracle histZig = some st ∧ StructInv st.s ∧ DInv st.s st.d ∧ st.d.fault = none ∧
+    UniqEd st.s st.d ∧ staleCount st.s st.d = 4 ∧ st.d.env.length = 4 ∧
+    (announce st.s exampleOracle 20 st.d 1).fault = some "fuel" ∧ (evAnnounce st.s exampleOracle st.d 1).fault = none := by
+  have hadm : admissibleRun Variant.repaired exampleOracle histZig.reverse = true := by decide +kernel
+  have hc : (runHist Variant.repaired exampleOracle histZig).map (fun st => (st.d.fault, staleCount st.s st.d, st.d.env.length,
+      (announce st.s exampleOracle 20 st.d 1).fault, (evAnnounce st.s exampleOracle st.d 1).fault)) =
+      some (none, 4, 4, some "fuel", none) := by decide +kernel
+  cases hr : runHist Variant.repaired exampleOracle histZig with
+  | none => rw [hr] at hc; cases hc
+  | some st =>
+    rw [hr] at hc
+    simp only [Option.map_some, Option.some.injEq, Prod.mk.injEq] at hc
+    obtain ⟨h1, h2, h3, h4, h5⟩ := hc
+    obtain ⟨hs, t⟩ := tinv_history exampleOracle exampleOracle_synthNonzero histZig.reverse st hr hadm
+    exact ⟨st, rfl, hs, (t h1).1, h1, (t h1).1.h.uniq, h2, h3, h4, h5⟩
+
+/-- `execute_fuel_sufficient`: after `chain` and an announced change of operand 1 both operations are
+outdated; `Execute(5)` recurses into `Execute(4)` (one level of fuel is not enough), succeeds with
+the model's fuel -/
+example : ((runHist Variant.repaired exampleOracle (chain ++ ([.edit 1 2, .announce 1] : List Op))).map
+      (fun st => ((execute st.s Variant.repaired exampleOracle 1 st.d 5 false).1.fault,
+        (execute st.s Variant.repaired exampleOracle (st.s.storage.length + 2) st.d 5 false).2,
+        (execute st.s Variant.repaired exampleOracle (st.s.storage.length + 2) st.d 5 false).1.fault,
+        st.d.fault))) = some (some "fuel", true, none, none) := by
+  decide +kernel
+
+/-- `closestFree_fuel_sufficient`: a start left of column 0 in a full row segment: four iterations do
+not find the free cell, the model's `g.length + 2 = 6` do -/
+example : closestFreeGo [(⟨0, -2⟩, 1), (⟨0, -1⟩, 2), (⟨0, 0⟩, 3), (⟨0, 1⟩, 4)] 4 ⟨0, -2⟩ ⟨0, -2⟩ = none ∧
+    Grid.closestFreePos [(⟨0, -2⟩, 1), (⟨0, -1⟩, 2), (⟨0, 0⟩, 3), (⟨0, 1⟩, 4)] ⟨0, -2⟩ = some ⟨0, 2⟩ := by
+  decide +kernel
+
+/-- the hypotheses of `fault_never_fuel`, `no_stale_done_repaired_access`, `exec_result_reachable_access`
+hold for `histAdmissible` (resp. its prefix before `Execute(4)`): no unchecked access was reached -/
+example : ∃ st, runHist Variant.repaired exampleOracle histAdmissible = some st ∧
+    admissibleRun Variant.repaired exampleOracle histAdmissible.reverse = true ∧ ¬ st.d.accessFault := by
+  have hc : (runHist Variant.repaired exampleOracle histAdmissible).map (·.d.fault) = some none := by decide +kernel
+  cases hr : runHist Variant.repaired exampleOracle histAdmissible with
+  | none => rw [hr] at hc; cases hc
+  | some st =>
+    rw [hr] at hc
+    simp only [Option.map_some, Option.some.injEq] at hc
+    refine ⟨st, rfl, by decide +kernel, ?_⟩
+    rintro ⟨w, hw, _⟩
+    rw [hc] at hw; cases hw
 
 end CCVerif.Oss
